@@ -77,9 +77,14 @@ func c03(r *rep.Run) {
 		aliasMax = 6
 	}
 	progs = withAliases(progs, aliasMax)
+	progs = withMerged(progs, 5)
 	r.Cov["programs_incl_alias_spellings"] = len(progs)
 	hs := harnesses(r.Workers)
 	opts := optMatrix(0, 1)
+	for _, o := range optMatrix(0) {
+		o.Undef = 1 // every variable resolved by name (undefined-variable mode)
+		opts = append(opts, o)
+	}
 	done := r.ParallelFor(len(progs), func(w, i int) {
 		p := progs[i]
 		h := hs[w]
